@@ -42,6 +42,7 @@ type Exch struct {
 	API       int    `json:"api,omitempty"`        // 0 ExchangeWithConn, 1 ExchangeWithConnContext(ctx deadline), 2 WriteMsg+ReadMsg, 3 Exchange (the library dials, exchanges, closes), 4 ExchangeContext; 3 and 4 need the socket seam of the instrumented build and fall back to 0 and 1 without it
 	Dial      string `json:"dial,omitempty"`       // API 3/4: "" the connection is there after DialMs | refused | blackhole (no answer to the connection attempt: the dial must give up by the exchange's deadline)
 	DialMs    int    `json:"dial_ms,omitempty"`    // API 3/4: simulated time the connection attempt takes
+	Tsig      bool   `json:"tsig,omitempty"`       // the query is TSIG-signed (the servers hold the key); the handler asks for TsigStatus only after its other steps, when the receive buffer has long been released
 	TOKind    int    `json:"to_kind,omitempty"`    // how the client is given its time limit: 0 Client.Timeout; 1 Timeout left at zero, Read/Write/DialTimeout set to the same value; 2 nothing set (the library's default of two seconds applies)
 	QCase     bool   `json:"qcase,omitempty"`      // the query name is written in mixed case and the handler answers with the name in lower case (a handler that canonicalises what it echoes)
 	CliUDP    int    `json:"cli_udp,omitempty"`    // udp: Client.UDPSize / Conn.UDPSize (0 = the library's default of 512 octets)
@@ -190,6 +191,7 @@ func Gen(seed uint64, tier string) any {
 			}
 			e.CliUDP = 65535
 			e.QCase = core.Chance(r, 15)
+			e.Tsig = core.Chance(r, 12)
 			if core.Chance(r, 30) {
 				e.TOKind = 1 + r.IntN(2)
 			}
@@ -431,6 +433,26 @@ func (x *run) handOver(w dns.ResponseWriter, b []byte) *wrec {
 	return rec
 }
 
+// unsigned returns r without a trailing TSIG record (the harness's reference is the query as it was before the client signed it).
+//
+//go:norace
+func unsigned(r *dns.Msg) *dns.Msg {
+	if r.IsTsig() == nil {
+		return r
+	}
+	c := *r
+	c.Extra = r.Extra[:len(r.Extra)-1]
+	if len(c.Extra) == 0 {
+		c.Extra = nil
+	}
+	return &c
+}
+
+const (
+	tsigKey    = "c12-key.example."
+	tsigSecret = "YzEyLXNoYXJlZC1zZWNyZXQtMDEyMzQ1Njc4OWFiY2RlZg=="
+)
+
 //go:norace
 func tokenOf(name string) string {
 	name = strings.ToLower(name)
@@ -467,7 +489,7 @@ func (x *run) ServeDNS(w dns.ResponseWriter, r *dns.Msg) {
 	exp := new(dns.Msg)
 	if err := exp.Unpack(clone(ex.reqBytes)); err == nil {
 		x.bump("oracle.X1_request_seen")
-		if !reflect.DeepEqual(r, exp) {
+		if !reflect.DeepEqual(unsigned(r), exp) {
 			k.Lock()
 			x.res.Fail("X1", "request-differs", "handler for %s saw a request that differs from the one its client sent:\nsaw:  %s\nsent: %s", tok, oneLine(r.String()), oneLine(exp.String()))
 			k.Unlock()
@@ -480,6 +502,16 @@ func (x *run) ServeDNS(w dns.ResponseWriter, r *dns.Msg) {
 	}
 	if p.SleepMs > 0 {
 		k.Sleep("h.sleep", time.Duration(p.SleepMs)*time.Millisecond)
+	}
+	if ex.plan.Tsig && r.IsTsig() != nil {
+		// the verdict on the signature, asked for late: the receive buffer went back to the server long ago
+		st := w.TsigStatus()
+		k.Lock()
+		x.res.Stats["oracle.B1_tsig_status_late"]++
+		if st != nil {
+			x.res.Fail("B1", "tsig-status-on-released-buffer", "the request of %s was signed correctly and delivered unaltered, yet TsigStatus, asked for after the handler's other steps, says %v", tok, st)
+		}
+		k.Unlock()
 	}
 	mk := func(id uint16, size int) *dns.Msg {
 		m := new(dns.Msg)
@@ -626,7 +658,7 @@ func (x *run) ServeDNS(w dns.ResponseWriter, r *dns.Msg) {
 		send(mk(r.Id, p.ReplySize))
 	}
 	// the request is still the handler's at the end: later traffic must not have changed it
-	if err := exp.Unpack(clone(ex.reqBytes)); err == nil && !reflect.DeepEqual(r, exp) {
+	if err := exp.Unpack(clone(ex.reqBytes)); err == nil && !reflect.DeepEqual(unsigned(r), exp) {
 		k.Lock()
 		x.res.Fail("X1", "request-changed-under-handler", "the request held by the handler for %s changed while it was running (now: %s)", tok, oneLine(r.String()))
 		k.Unlock()
@@ -831,6 +863,7 @@ func (c *clientTask) RunEvent(time.Time) {
 		return
 	}
 	reads := 0 // completed ReadMsg calls on a stream, = index of the next frame
+	signedOnce := false
 	for ei, e := range plan.Exch {
 		ex := x.ex[tok(c.ci, ei)]
 		m := new(dns.Msg)
@@ -873,10 +906,21 @@ func (c *clientTask) RunEvent(time.Time) {
 		ex.reqBytes = clone(b)
 		ex.guar = guar
 		k.Unlock()
+		// (nothing else in the additional section: the accept policy allows two records there; and one signed query per
+		// connection: a dns.Conn chains the MAC of its previous signed query into the next, which a server rightly refuses)
+		signed := e.Tsig && e.OptSize == 0 && e.Size == 0 && !signedOnce
+		if signed {
+			signedOnce = true
+			m.SetTsig(tsigKey, dns.HmacSHA256, 300, time.Now().Unix())
+			x.bump("cover.signed_query")
+		}
 		eff := time.Duration(e.TimeoutMs) * time.Millisecond // the time limit in force for this exchange
 		cl := &dns.Client{Timeout: eff, UDPSize: uint16(e.CliUDP)}
 		if e.ReadTOMs > 0 {
 			cl.ReadTimeout, cl.WriteTimeout = time.Duration(e.ReadTOMs)*time.Millisecond, time.Duration(e.ReadTOMs)*time.Millisecond
+		}
+		if signed {
+			cl.TsigSecret = map[string]string{tsigKey: tsigSecret}
 		}
 		switch e.TOKind {
 		case 1:
@@ -1000,6 +1044,7 @@ func (c *clientTask) RunEvent(time.Time) {
 			k.Yield("cli.cancelled", 0)
 		case 2:
 			co.UDPSize = uint16(e.CliUDP)
+			co.TsigSecret = cl.TsigSecret
 			co.SetDeadline(deadline)
 			if err = co.WriteMsg(m); err == nil {
 				r, err = co.ReadMsg()
@@ -1535,7 +1580,7 @@ func runExchange(sc *Scenario, res *core.Result, verbose bool) {
 	x.uc = n.ListenUDP([]string{"10.0.0.1:53", "10.0.0.7:53", "[fd00::1]:53"}[:x.homes]...)
 	x.pc = x.uc.PacketConn
 	mk := func() *dns.Server {
-		s := &dns.Server{Handler: x, UDPSize: sc.UDPSize, ReadTimeout: time.Hour, IdleTimeout: hourIdle}
+		s := &dns.Server{Handler: x, UDPSize: sc.UDPSize, ReadTimeout: time.Hour, IdleTimeout: hourIdle, TsigSecret: map[string]string{tsigKey: tsigSecret}}
 		for _, c := range sc.Clients {
 			if c.Trickle {
 				s.ReadTimeout = trickleTimeout
